@@ -129,6 +129,8 @@ def main():
                        "params": params}, no_input=True)
 
     cov = dict(ctx.coverage)
+    if "_distinct" in cov:          # the module did not reach its finish() (it crashed)
+        cov["distinct_nontrivial"] = len(cov.pop("_distinct"))
     cov.update({"obligations": len(proof["obligations"]), "discharged": len(proof["discharged"]),
                 "checker_cmd": proof["checker_cmd"], "trusted_base": mod.TRUSTED_BASE,
                 "theorems": proof["obligations"], "print_assumptions": proof["assumptions"],
